@@ -27,6 +27,14 @@ func runC04(c *Check, tier string) {
 	ruleSemaphorePairing(c, "R04g")
 	ruleAdjacencyNotAliased(c, "R04h")
 	ruleQueueDrained(c, "R04i")
+	// the walker waits on every in-edge of a selected node and runs routines only for selected nodes: a selected
+	// node with an unselected dependency is never released
+	shareRule(c, "R04j", "the selection the walker is given is closed under dependencies: the ancestor selection ranges over the node's full dependency list (graph in-edges, aliases included) and selects or fails on each (same obligations as R12b)", 2, "R12b", func(sub *Check) { ruleR12b(sub) }, func(k string) bool {
+		return strings.Contains(k, "closure-over-all-dependencies") || strings.Contains(k, "each-dependency-selected")
+	})
+	// the hit path reads the looked-up result: it must be there
+	ruleSharedMapNotWritten(c, "R04l")
+	shareRule(c, "R04k", "every path to a cache hit passes the branch on which the looked-up target result is non-nil (the hit path dereferences it on a worker goroutine; same obligation as R13a)", 1, "R13a", func(sub *Check) { ruleR13a(sub, analyseGate(sub, "R13a")) }, func(k string) bool { return strings.Contains(k, "result-found") })
 }
 
 // ruleSemaphorePairing (shared with C18): every acquired slot of a counting semaphore — a successful
@@ -361,7 +369,7 @@ func ruleR04a(c *Check) {
 					if m, ok := et.Underlying().(*types.Map); ok && engine.TypeKey(m.Elem()) == "model.Package" {
 						mapVar = al
 					}
-					if et.String() == "sync.Mutex" {
+					if et.String() == "sync.Mutex" || et.String() == "sync.RWMutex" {
 						muVar = al
 					}
 				}
@@ -418,7 +426,14 @@ func ruleR04a(c *Check) {
 							continue
 						}
 						held := lsf.Held(ld)
-						c.Require(held[want], "R04a", "guarded/loading.LoadPackages."+mapVar.Comment+"/"+c.P.FuncName(fn), "the shared package map is accessed under "+want, "the package map shared by the loader goroutines is accessed without "+want+": concurrent map writes crash the loader", c.P.InstrPos(ld))
+						// a read lock suffices where the map is only looked up
+						writes := false
+						for _, r := range *ld.Referrers() {
+							if mu, ok := r.(*ssa.MapUpdate); ok && mu.Map == ssa.Value(ld) {
+								writes = true
+							}
+						}
+						c.Require(held[want] || (!writes && held["r:"+want]), "R04a", "guarded/loading.LoadPackages."+mapVar.Comment+"/"+c.P.FuncName(fn), "the shared package map is accessed under "+want, "the package map shared by the loader goroutines is accessed without "+want+": concurrent map writes crash the loader", c.P.InstrPos(ld))
 					}
 				}
 			}
@@ -1315,5 +1330,105 @@ func ruleLockPairing(c *Check, rule string) {
 			}
 			c.Require(!reach, rule, "lock-released/"+c.P.FuncName(fn)+"/"+strings.TrimPrefix(op.Key, "*"), "released (or release deferred) on every path", "the lock taken here is not released on every path"+w+": the next goroutine that needs it blocks forever (a hang instead of an error)", pos)
 		}
+	}
+}
+
+// loaderTable finds the function that spawns the loader goroutines and its shared package map / mutex locals.
+func loaderTable(c *Check) (lp *ssa.Function, mapVar, muVar *ssa.Alloc) {
+	for _, fn := range c.P.Funcs {
+		if engine.InPackage(fn, "loading") && fn.Parent() == nil && len(callsNamed(fn, "github.com/boyter/gocodewalker.NewParallelFileWalker")) > 0 {
+			lp = fn
+		}
+	}
+	if lp == nil {
+		return
+	}
+	for _, b := range lp.Blocks {
+		for _, in := range b.Instrs {
+			if al, ok := in.(*ssa.Alloc); ok {
+				et := al.Type().Underlying().(*types.Pointer).Elem()
+				if m, ok := et.Underlying().(*types.Map); ok && engine.TypeKey(m.Elem()) == "model.Package" {
+					mapVar = al
+				}
+				if et.String() == "sync.Mutex" || et.String() == "sync.RWMutex" {
+					muVar = al
+				}
+			}
+		}
+	}
+	return
+}
+
+// ruleTableInsertAtomic: the decision "this directory has no package yet" and the insert that follows from it
+// are one critical section. Two package files of one directory are loaded by different goroutines; if the lock
+// is released between the lookup and the insert, both can see "absent" and the second insert replaces the
+// first package: its targets vanish without an error.
+func ruleTableInsertAtomic(c *Check, rule string) {
+	c.Rule(rule, "in the loader goroutines every insert into the shared package map is reached from the lookup of that map that decided it without the map's lock being released in between (or the lookup is repeated after re-acquiring)", 1)
+	lp, mapVar, muVar := loaderTable(c)
+	if lp == nil || mapVar == nil || muVar == nil {
+		c.Unknown(rule, "lookup-and-insert-in-one-critical-section", "anchor-unresolved: the loader's shared package map (a local of the function that starts the file walker) or its mutex not found", "-")
+		return
+	}
+	want := engine.ExprKey(muVar)
+	n := 0
+	for _, fn := range engine.AnonFuncsDeep(lp) {
+		var lookups, updates, releases []ssa.Instruction
+		isMap := func(v ssa.Value) bool {
+			ld, ok := v.(*ssa.UnOp)
+			if !ok || ld.Op != token.MUL {
+				return false
+			}
+			if fv, ok := ld.X.(*ssa.FreeVar); ok {
+				return fv.Name() == mapVar.Comment
+			}
+			return ld.X == ssa.Value(mapVar)
+		}
+		for _, b := range fn.Blocks {
+			for _, in := range b.Instrs {
+				switch x := in.(type) {
+				case *ssa.Lookup:
+					if isMap(x.X) {
+						lookups = append(lookups, x)
+					}
+				case *ssa.MapUpdate:
+					if isMap(x.Map) {
+						updates = append(updates, x)
+					}
+				case *ssa.Call:
+					if op, ok := engine.ClassifyLock(x); ok && !op.Acquire && op.Key == want {
+						releases = append(releases, x)
+					}
+				}
+			}
+		}
+		isLookup := func(in ssa.Instruction) bool {
+			for _, l := range lookups {
+				if l == in {
+					return true
+				}
+			}
+			return false
+		}
+		for _, mu := range updates {
+			n++
+			bad := ""
+			for _, lk := range lookups {
+				for _, r := range releases {
+					a, _ := engine.PathExists(fn, lk, engine.IsInstr(r), engine.PathQuery{Shallow: true, CutInstr: func(in ssa.Instruction) bool { return in != lk && isLookup(in) }})
+					b, _ := engine.PathExists(fn, r, engine.IsInstr(mu), engine.PathQuery{Shallow: true, CutInstr: isLookup})
+					if a && b {
+						bad = "the lock is released at " + c.P.InstrPos(r) + " between the lookup (" + c.P.InstrPos(lk) + ") and this insert"
+					}
+				}
+			}
+			if len(lookups) == 0 {
+				bad = "the insert is not preceded by a lookup of the same map"
+			}
+			c.Require(bad == "", rule, "lookup-and-insert-in-one-critical-section/"+c.P.FuncName(engine.TopFunc(fn)), "no release of "+want+" lies between the deciding lookup and the insert", bad+": two goroutines that load package files of the same directory can both find it absent, and the later insert silently replaces the earlier package (its targets are gone: fewer targets are built than the patterns match, and which ones depends on the schedule)", c.P.InstrPos(mu))
+		}
+	}
+	if n == 0 {
+		c.Unknown(rule, "lookup-and-insert-in-one-critical-section", "no insert into the shared package map found in the loader goroutines", "-")
 	}
 }
